@@ -35,15 +35,26 @@ size_t strlen(const char *s)
     return n;
 }
 
-/* TRUSTED(common/util.c) ut_strdup: strdup(3) that never fails */
+/* TRUSTED(common/util.c) ut_strdup: strdup(3) that never fails.  Two models:
+ *  - default (plain CBMC jobs): exact copy by a loop (ut_strdup.0, closed by `pre-unwind:`);
+ *  - XV_AP_STRDUP_GHOST (contract jobs): a block of exactly n+1 bytes of which only the byte at the arbitrary position
+ *    xv_ap_q (if <= n) and the terminating NUL are stated to equal the source; every other byte is ARBITRARY.  This is an
+ *    over-approximation of the exact model (everything proved against it holds for the exact copy); what is proved about
+ *    position xv_ap_q holds for every position.  Why: 256 writes into a block of symbolic size exhaust the solver. */
 char *ut_strdup(const char *str)
 {
     size_t n = strlen(str);
     char *copy = malloc(n + 1);
     __CPROVER_assume(copy != NULL);
+#ifdef XV_AP_STRDUP_GHOST
+    if (xv_ap_q < n)
+        copy[xv_ap_q] = str[xv_ap_q];
+    copy[n] = '\0';
+#else
     size_t i;
-    for (i = 0; i <= n; i++)     /* loop ut_strdup.0, closed by `pre-unwind:` (cheaper than memcpy with a symbolic size) */
+    for (i = 0; i <= n; i++)     /* loop ut_strdup.0 */
         copy[i] = str[i];
+#endif
     return copy;
 }
 /* TRUSTED(common/util.c) ut_memdup: ut_malloc + memcpy, as in the real text */
@@ -65,26 +76,40 @@ size_t xv_ap_strtol_used;   /* ghost: number of characters it consumed (end - np
 long strtol(const char *nptr, char **endptr, int base)
 {
     __CPROVER_assert(base == 10, "XV strtol model covers base 10 only");
+#ifdef XV_AP_E2
+    { size_t k = nondet_size_t(); __CPROVER_assume(k < 2); *endptr = (char *)nptr + k; return nondet_long(); }
+#endif
     size_t i;
     size_t room = __CPROVER_OBJECT_SIZE(nptr) - (size_t)__CPROVER_POINTER_OFFSET(nptr);
     _Bool lead = 1, neg = 0, any = 0, ovf = 0;
     unsigned long acc = 0;
     for (i = 0; ; i++)
+/* (generated pointer/overflow checks are switched off INSIDE the invariant text, as in contracts/begin.h: ~400 of them) */
+#pragma CPROVER check push
+#pragma CPROVER check disable "pointer"
+#pragma CPROVER check disable "pointer-primitive"
+#pragma CPROVER check disable "pointer-overflow"
+#pragma CPROVER check disable "bounds"
+#pragma CPROVER check disable "signed-overflow"
+#pragma CPROVER check disable "conversion"
     __CPROVER_assigns(i, lead, neg, any, ovf, acc)
     __CPROVER_loop_invariant(room >= 1 && i <= room - 1)
     __CPROVER_loop_invariant((lead ==> (!neg && !any && !ovf && acc == 0)) && (any ==> !lead))
-    __CPROVER_loop_invariant(xv_ap_q < i ==> (AP_SPACE(nptr[xv_ap_q]) || nptr[xv_ap_q] == '-' || nptr[xv_ap_q] == '+' || AP_DIGIT(nptr[xv_ap_q])))
+#ifndef XV_AP_E3
+    __CPROVER_loop_invariant(xv_ap_q < i ==> AP_NUMCHAR(nptr[xv_ap_q]))
     __CPROVER_loop_invariant((any && i >= 1) ==> AP_DIGIT(nptr[i - 1]))
+#endif
     __CPROVER_decreases(room - i)
+#pragma CPROVER check pop
     {
         char c = nptr[i];
         if (lead) {
-            if (AP_SPACE(c)) continue;
+            if (c == ' ' || (c >= '\t' && c <= '\r')) continue;    /* isspace() in the C locale */
             lead = 0;
             if (c == '-') { neg = 1; continue; }
             if (c == '+') continue;
         }
-        if (!AP_DIGIT(c)) break;
+        if (!(c >= '0' && c <= '9')) break;
         unsigned long d = (unsigned long)(c - '0');
         if (acc > (unsigned long)LONG_MAX / 10) ovf = 1;          /* acc * 10 would already exceed LONG_MAX + 1 */
         else acc = (acc << 3) + (acc << 1) + d;                   /* <= 9223372036854775809, no wrap-around */
